@@ -520,6 +520,10 @@ func (s *Scanner) scanDocument() (token.Token, error) {
 				}
 				return tok, nil
 			}
+		default:
+			if documentMode == documentHalfClose {
+				documentMode = documentOpen // a '*' that is not followed by '/' does not end the comment
+			}
 		}
 		s.readRune()
 	}
